@@ -316,6 +316,26 @@ void snoopy_configuration_dtor ()
         CFG->syslog_ident_format_malloced = SNOOPY_FALSE;                 /* Set this to false         - REQUIRED (see above) */
         CFG->syslog_ident_format          = SNOOPY_SYSLOG_IDENT_FORMAT;   /* Set this to default value - REQUIRED (see above) */
     }
+
+
+    /*
+     * Reset the non-string settings too
+     *
+     * Without thread safety the configuration structure is a single static
+     * one that survives this call. If the next call finds no (or a different)
+     * config file, these must not carry over from the file parsed this time.
+     */
+#ifdef SNOOPY_ERROR_LOGGING_ENABLED
+    CFG->error_logging_enabled         = SNOOPY_TRUE;
+#else
+    CFG->error_logging_enabled         = SNOOPY_FALSE;
+#endif
+    CFG->syslog_facility               = SNOOPY_SYSLOG_FACILITY;
+    CFG->syslog_level                  = SNOOPY_SYSLOG_LEVEL;
+    CFG->datasource_message_max_length = SNOOPY_DATASOURCE_MESSAGE_MAX_LENGTH_DEFAULT;
+    CFG->log_message_max_length        = SNOOPY_LOG_MESSAGE_MAX_LENGTH_DEFAULT;
+    CFG->configfile_found              = SNOOPY_FALSE;
+    CFG->configfile_parsed             = SNOOPY_FALSE;
 }
 
 
